@@ -719,6 +719,31 @@ class PyModel:
                     env[tgt] = v
         return env
 
+    def local_env(self, fn: ast.AST, mod: str) -> Dict[str, object]:
+        """module_env(mod) plus the function's own constants: local names that are assigned exactly once, to a constant
+        expression (`access_specs = ("public", "private")`), and the constant attributes of the enclosing class under their
+        bare names are NOT added (they are reached as self.X / cls.X, which eval_const resolves itself where it can)"""
+        env = dict(self.module_env(mod))
+        seen: Dict[str, list] = {}
+        for n in ast.walk(fn):
+            if isinstance(n, ast.Assign) and len(n.targets) == 1 and isinstance(n.targets[0], ast.Name):
+                seen.setdefault(n.targets[0].id, []).append(n.value)
+            elif isinstance(n, ast.AnnAssign) and isinstance(n.target, ast.Name) and n.value is not None:
+                seen.setdefault(n.target.id, []).append(n.value)
+            elif isinstance(n, (ast.AugAssign, ast.NamedExpr)) and isinstance(n.target, ast.Name):
+                seen.setdefault(n.target.id, []).extend([None, None])
+            elif isinstance(n, (ast.For, ast.comprehension)):
+                for t in ast.walk(n.target):
+                    if isinstance(t, ast.Name):
+                        seen.setdefault(t.id, []).extend([None, None])
+        for _ in range(2):
+            for name, vals in seen.items():
+                if len(vals) == 1 and vals[0] is not None and name not in env:
+                    v = self.eval_const(vals[0], env)
+                    if v is not PyModel._UNKNOWN:
+                        env[name] = v
+        return env
+
     def const_value(self, owner: str, name: str):
         """value of the module-level ('module', NAME) or class-level ('Class', NAME) constant, or _UNKNOWN"""
         if owner in self.modules:
